@@ -1,4 +1,7 @@
 """C02 — Fixed-buffer discipline: never write past the caller's buffer, fail closed."""
+import os
+import re
+
 from props import c01 as C01
 from props import c08 as C08
 
@@ -10,7 +13,9 @@ THEOREMS = [
     "Rtosc.Osc.amessage_fail_closed",
     "Rtosc.Osc.amessage_fit_exact",
     "Rtosc.Osc.amessage_null_size",
+    "Rtosc.Osc.amessage_null_any_len",
     "Rtosc.Osc.vmessage_fixed_buffer",
+    "Rtosc.Osc.message_fixed_buffer",
     "Rtosc.Osc.bundle_never_oob",
     "Rtosc.Osc.bundle_fail_closed",
     "Rtosc.Osc.bundle_exact_size",
@@ -19,34 +24,85 @@ THEOREMS = [
     "Rtosc.Osc.tlink_writeArray_fixed_buffer",
     "Rtosc.Osc.tlink_write_fixed_buffer",
     "Rtosc.Osc.rtdata_reply_fixed_buffer",
+    "Rtosc.Osc.wrapper_overclaim_detected",
+    "Rtosc.Osc.amessage_eq_amessageFast",
+    "Rtosc.Osc.BW.stores_eq_storesFast",
 ]
 HARNESS = {"src": ["oscbuf.cpp"], "deps": ["common.h", "bundle_common.h"]}
-RULE = ("every message from C01's space (type strings exhaustively up to length 2, random up to 8 tags, boundary values, "
-        "NULL blob data) and every bundle from C08's space (0..8 elements, nesting 0..4), each built by rtosc_amessage / "
-        "rtosc_vmessage / rtosc_bundle into EVERY capacity 0..needed+8 (longer ones: windows 0..24 and needed-8..needed+8) "
-        "on an exact-size heap block under ASan and once more on a block with a 16-byte canary; NULL-buffer size; "
-        "ThreadLink::writeArray/write with MaxMsg around the needed size; RtData::reply/broadcast (literal call sites) "
-        "with messages around the 8192-byte stack buffer. Non-trivial = a message with a payload argument or a bundle "
-        "with an element; distinct = distinct op line")
+RULE = ("every message from C01's space (type strings exhaustively up to length 2, random up to 8 / 24 / 100 tags, boundary "
+        "values, NULL blob data; one argument or the address of length 100, 255..257, 1023..1025, 4096 in every run and "
+        "65535..65537 in rotation) and every bundle from C08's space (0..8 elements, nesting 0..4; a fraction with 9..32 "
+        "elements), each built by rtosc_amessage / rtosc_vmessage (hand-built va_list) / rtosc_message (17 literal call "
+        "sites) / rtosc_bundle into EVERY capacity 0..needed+8 (longer ones: windows 0..24 and needed-8..needed+8; above "
+        "4 KiB 0..8 and needed-3..needed+2) on an exact-size heap block under ASan and once more on a block with a 16-byte "
+        "canary; the size query with (NULL,0) and (NULL,hi); ThreadLink::writeArray/write with MaxMsg around the needed "
+        "size; RtData::reply/broadcast (literal call sites) with messages around the size of their stack buffer (size and "
+        "capacity passed are read from src/cpp/ports.cpp of the tree under test). A small stream of type strings with "
+        "bytes that are no tags is checked for stores outside the block only (not compared with the model). "
+        "Non-trivial = a message with a payload argument or a bundle with an element; distinct = distinct op line")
 ASSUMPTIONS = ["message arguments as in C01 (address non-empty and NUL-free, strings NUL-free, 0 <= blob length < 2^31 and "
                "not larger than the data block, NULL blob data allowed)",
                "bundle elements as in C08 (well-formed; a nested bundle is followed by a zero word inside its block)",
-               "the va_list hand-off of ThreadLink::write / RtData::reply / broadcast is not modelled (the list of promoted "
-               "values is); those wrappers are exercised through 8 literal call sites"]
+               "variadic entry points (rtosc_message, rtosc_vmessage, ThreadLink::write, RtData::reply/broadcast): the "
+               "theorems assume hf: every 32-bit argument v satisfies narrow(widen v) = v (a float survives the promotion "
+               "to double and back, true of IEEE-754 for every non-signalling pattern; the size of the message never "
+               "depends on it, but the theorems state the exact bytes); the correspondence runs signalling NaNs too",
+               "the wrappers' theorems have the hypothesis that the capacity passed is not larger than the buffer owned "
+               "(MaxMsg <= size of write_buffer; cap <= size of the stack buffer): wrapper_overclaim_detected shows that the "
+               "model flags a wrapper that claims more; the va_list hand-off itself is not modelled (the list of promoted "
+               "values is), the wrappers are exercised through 17 literal call sites each"]
 TRUSTED = ["hand-written models RtoscModel/Osc/Encode.lean (C01) and RtoscModel/Osc/Bundle.lean of src/rtosc.c",
-           "x86-64 SysV va_list layout (hand-built va_list in harness/oscbuf.cpp)"]
+           "x86-64 SysV va_list layout (hand-built va_list in harness/oscbuf.cpp)",
+           "the compiled driver runs amessageFast / BW.storesFast (linear splices) in place of amessage / BW.stores; both "
+           "are proved equal to the model functions (csimp rules amessage_eq_amessageFast, BW.stores_eq_storesFast)"]
 LEVEL_TEXT = ("Lean theorems, for every capacity and every well-formed input: the out-of-bounds-store flag of "
-              "rtosc_amessage / rtosc_vmessage / rtosc_bundle (after fix C02-bundle-len) / append_bundle is never set; "
+              "rtosc_amessage / rtosc_vmessage / rtosc_message / rtosc_bundle (after fix C02-bundle-len) is never set; "
               "if the encoding does not fit they return 0 and leave len zero bytes; otherwise they return exactly the "
-              "encoded size and write exactly the encoding; the NULL-buffer size equals that size; for rtosc_bundle the "
-              "store-safety and fail-closed theorems hold for arbitrary element bytes. The wrappers writing into "
-              "write_buffer[MaxMsg] and char[8192] are corollaries. The models are compared with the compiled "
-              "implementation on every capacity of exact-size heap blocks (ASan red zones + canaries), and the property is "
-              "evaluated directly on the implementation's output")
+              "encoded size and write exactly the encoding; the NULL-buffer size equals that size, whatever len is passed "
+              "with NULL; for rtosc_bundle the store-safety and fail-closed theorems hold for arbitrary element bytes. "
+              "For append_bundle only store-safety is a theorem here (on failure it returns 0 and leaves the destination "
+              "as it was: it does not zero-fill; its result is C08's appendBundle_eq_spec). rtosc_message and the wrappers "
+              "writing into write_buffer[MaxMsg] and the stack buffer of RtData::reply/broadcast are stated for a caller "
+              "that owns a block and claims a capacity (callAt): under the hypothesis capacity <= block size nothing is "
+              "stored outside and the bytes behind the capacity keep their values. The variadic theorems carry the "
+              "hypothesis hf (see assumptions). The models are compared with the compiled implementation on every capacity "
+              "of exact-size heap blocks (ASan red zones + canaries), and the property is evaluated directly on the "
+              "implementation's output")
 
 hx = C01.hx
 unhx = C01.unhx
-TEMPLATES = [b"", b"s", b"isi", b"ss", b"b", b"ifs", b"sT", b"hd"]
+# type strings of the literal call sites: same list in harness/oscbuf.cpp and lean/Driver/OscbufEngine.lean
+TEMPLATES = [b"", b"s", b"isi", b"ss", b"b", b"ifs", b"sT", b"hd", b"c", b"m", b"tS", b"rf", b"TFNI", b"iiiiiiii", b"sbs",
+             b"dfhi", b"[sb]i"]
+BIG = [100, 255, 256, 257, 1023, 1024, 1025, 4096]
+HUGE = [65535, 65536, 65537]
+
+
+def rtdata_caps():
+    """(N, cap) of RtData::reply and RtData::broadcast: `char buffer[N]; rtosc_vmessage(buffer,cap,...)` as written in
+    src/cpp/ports.cpp of the tree under test (the property does not fix the number 8192)."""
+    import vlib
+    out = {}
+    try:
+        src = open(os.path.join(vlib.REPO, "src/cpp/ports.cpp")).read()
+    except OSError:
+        src = ""
+    for name in ("reply", "broadcast"):
+        n, c = 8192, 8192
+        m = re.search(r"void\s+RtData::%s\s*\(\s*const\s+char\s*\*\s*path\s*,\s*const\s+char\s*\*\s*args\s*,\s*\.\.\.\s*\)"
+                      r"\s*\{(.*?)\n\}" % name, src, re.S)
+        if m:
+            mb = re.search(r"char\s+buffer\s*\[\s*(\d+)\s*\]", m.group(1))
+            mc = re.search(r"rtosc_vmessage\s*\(\s*buffer\s*,\s*([^,]+?)\s*,", m.group(1))
+            if mb and mc:
+                n = int(mb.group(1))
+                e = mc.group(1).replace(" ", "")
+                c = int(e) if e.isdigit() else (n if e in ("sizeof(buffer)", "sizeofbuffer") else None)
+                if c is None:
+                    n, c = 8192, 8192
+        out[name] = (n, c)
+    return out
+
 
 
 def payload_tags(tags):
@@ -54,7 +110,7 @@ def payload_tags(tags):
 
 
 def abstract_args(mode, tags, args):
-    return [C01.narrow(a) if (bytes([t]) == b"f" and mode == "V") else a for t, a in zip(payload_tags(tags), args)]
+    return [C01.narrow(a) if (bytes([t]) == b"f" and mode in "VL") else a for t, a in zip(payload_tags(tags), args)]
 
 
 def m_line(mode, lo, hi, addr, tags, args):
@@ -75,15 +131,52 @@ def rand_message(rng, tags, mode, st, addr=None):
 def windows(need):
     if need + 8 <= 96:
         return [(0, need + 8)]
+    if need > 4096:
+        return [(0, 8), (need - 3, need + 2)]
     return [(0, 24), (max(need - 8, 25), need + 8)]
+
+
+def big_value(rng, n):
+    return bytes(rng.randint(1, 255) for _ in range(n))
+
+
+def big_message(rng, n, field, mode, st):
+    """a message one of whose parts (address, string, blob with data, blob with NULL data) has n bytes"""
+    if mode == "L":
+        tags = {"addr": rng.choice(TEMPLATES), "str": rng.choice([b"s", b"ss", b"sbs", b"isi"]),
+                "blob": rng.choice([b"b", b"sbs", b"[sb]i"]), "nullblob": rng.choice([b"b", b"sbs"])}[field]
+    else:
+        tags = C01.rand_tags(rng, 0, 3)
+        ins = {"addr": b"", "str": rng.choice([b"s", b"S"]), "blob": b"b", "nullblob": b"b"}[field]
+        k = rng.randint(0, len(tags))
+        tags = tags[:k] + ins + tags[k:]
+    pt = payload_tags(tags)
+    args = [C01.rand_arg(rng, t, mode, st) for t in pt]
+    addr = C01.rand_addr(rng)
+    want = {"str": b"sS", "blob": b"b", "nullblob": b"b"}.get(field)
+    if field == "addr":
+        addr = b"/" + bytes(rng.randint(0x21, 0x7e) for _ in range(n - 1))
+    else:
+        idx = [i for i, t in enumerate(pt) if bytes([t]) in want]
+        i = rng.choice(idx)
+        if field == "str":
+            args[i] = big_value(rng, n)
+        elif field == "blob":
+            args[i] = (n, bytes(rng.getrandbits(8) for _ in range(n)) + (b"xy" if rng.random() < 0.3 else b""))
+        else:
+            args[i] = (n, None)
+    need = len(C01.encode(addr, tags, abstract_args(mode, tags, args)))
+    return addr, tags, args, need
 
 
 def generate(rng, tier, stats):
     quick = tier == "quick"
     st = new_stats()
-    stats.update({"msg_sweeps": 0, "bundle_sweeps": 0, "capacities": 0, "mode_A": 0, "mode_V": 0, "junk_tags": 0,
-                  "tlink_writeArray": 0, "tlink_write": 0, "rtdata": 0, "rtdata_over_8192": 0, "need_hist": [0] * 12,
-                  "bundle_depth_hist": [0] * 5, "bundle_elems_hist": [0] * 9})
+    caps = rtdata_caps()
+    stats.update({"msg_sweeps": 0, "bundle_sweeps": 0, "capacities": 0, "mode_A": 0, "mode_V": 0, "mode_L": 0, "junk_tags": 0,
+                  "tlink_writeArray": 0, "tlink_write": 0, "rtdata": 0, "rtdata_over_cap": 0, "need_hist": [0] * 12,
+                  "ntags_hist": [0] * 6, "big_parts": {}, "bundle_depth_hist": [0] * 5, "bundle_elems_hist": [0] * 6,
+                  "rtdata_buffers": {k: list(v) for k, v in caps.items()}})
 
     def sweep(mode, addr, tags, args, need):
         for lo, hi in windows(need):
@@ -91,79 +184,128 @@ def generate(rng, tier, stats):
             stats["capacities"] += hi - lo + 1
             stats["mode_" + mode] += 1
             stats["need_hist"][min(need // 16, 11)] += 1
+            stats["ntags_hist"][min(len(tags) // 8, 5)] += 1
             yield m_line(mode, lo, hi, addr, tags, args)
 
-    # exhaustive small type strings
-    for tags in C01.all_tag_strings(2):
-        for _ in range(1 if quick else 6):
+    # parts of 64 KiB first (the Lean driver is slowest on them; they end up in different driver chunks)
+    huge = []
+    fields = ["addr", "str", "blob", "nullblob"]
+    off = rng.randrange(4)
+    for j, n in enumerate(HUGE * 2 if quick else HUGE * 4):
+        field = fields[(off + j) % 4] if quick else fields[(j // 3) % 4]
+        mode = rng.choice("AVL")
+        addr, tags, args, need = big_message(rng, n, field, mode, st)
+        stats["big_parts"]["%s:%d" % (field, n)] = stats["big_parts"].get("%s:%d" % (field, n), 0) + 1
+        huge.append(list(sweep(mode, addr, tags, args, need)))
+
+    def body():
+        # exhaustive small type strings
+        for tags in C01.all_tag_strings(2):
+            for _ in range(1 if quick else 6):
+                mode = rng.choice("AV")
+                addr, args, need = rand_message(rng, tags, mode, st)
+                yield from sweep(mode, addr, tags, args, need)
+        # every address length 1..20 (every residue mod 4)
+        for n in range(1, 21):
+            tags = C01.rand_tags(rng, 0, 3)
+            addr, args, need = rand_message(rng, tags, "A", st, addr=C01.rand_addr(rng, n))
+            yield from sweep("A", addr, tags, args, need)
+        # rtosc_message itself: every literal call site
+        for k, tags in enumerate(TEMPLATES):
+            for _ in range(4 if quick else 60):
+                addr, args, need = rand_message(rng, tags, "L", st)
+                yield from sweep("L", addr, tags, args, need)
+        # one long part: address / string / blob / blob without data
+        for n in BIG:
+            for field in fields:
+                for _ in range(1 if quick else 6):
+                    mode = rng.choice("AVL")
+                    addr, tags, args, need = big_message(rng, n, field, mode, st)
+                    stats["big_parts"]["%s:%d" % (field, n)] = stats["big_parts"].get("%s:%d" % (field, n), 0) + 1
+                    yield from sweep(mode, addr, tags, args, need)
+        # random messages
+        for _ in range(2500 if quick else 60000):
+            r = rng.random()
+            tags = C01.rand_tags(rng, 0, 8) if r < 0.7 else C01.rand_tags(rng, 0, 24) if r < 0.9 else C01.rand_tags(rng, 25, 100)
             mode = rng.choice("AV")
             addr, args, need = rand_message(rng, tags, mode, st)
             yield from sweep(mode, addr, tags, args, need)
-    # every address length 1..20 (every residue mod 4)
-    for n in range(1, 21):
-        tags = C01.rand_tags(rng, 0, 3)
-        addr, args, need = rand_message(rng, tags, "A", st, addr=C01.rand_addr(rng, n))
-        yield from sweep("A", addr, tags, args, need)
-    # random messages
-    for _ in range(1800 if quick else 60000):
-        tags = C01.rand_tags(rng, 0, 8) if rng.random() < 0.8 else C01.rand_tags(rng, 0, 24)
-        mode = rng.choice("AV")
-        addr, args, need = rand_message(rng, tags, mode, st)
-        yield from sweep(mode, addr, tags, args, need)
-    # type strings with bytes that are not tags (default branches)
-    for _ in range(120 if quick else 4000):
-        tags = bytes(rng.choice(b"ifsbTx.Z0a") for _ in range(rng.randint(1, 6)))
-        mode = rng.choice("AV")
-        addr = C01.rand_addr(rng)
-        args = [C01.rand_arg(rng, t, mode, st) for t in payload_tags(tags)]
-        stats["junk_tags"] += 1
-        yield m_line(mode, 0, 64, addr, tags, args)
-    # bundles
-    for _ in range(1500 if quick else 50000):
-        t = C08.set_caps(rng, C08.rand_tree(rng, rng.randint(0, 4), rng.choice([1, 2, 3, 4, 8]), small=True), lambda s: s)
-        need = len(C08.enc(t))
-        stats["bundle_depth_hist"][min(C08.depth_of(t) - 1, 4)] += 1
-        stats["bundle_elems_hist"][min(len(t[3]), 8)] += 1
-        for lo, hi in windows(need):
-            stats["bundle_sweeps"] += 1
-            stats["capacities"] += hi - lo + 1
-            yield " ".join(["B", str(lo), str(hi)] + C08.tokens(t))
-    # ThreadLink::writeArray
-    for _ in range(500 if quick else 20000):
-        tags = C01.rand_tags(rng, 0, 6)
-        addr, args, need = rand_message(rng, tags, "A", st)
-        maxmsg = max(1, need + rng.choice([-9, -4, -1, 0, 0, 1, 4, 8, 40]))
-        stats["tlink_writeArray"] += 1
-        yield " ".join(["T", str(maxmsg), hx(addr), hx(tags)] + [C01.tok("A", t, a) for t, a in zip(payload_tags(tags), args)])
-    # ThreadLink::write and RtData::reply / broadcast through literal call sites
-    for _ in range(500 if quick else 20000):
-        k = rng.randrange(len(TEMPLATES))
-        tags = TEMPLATES[k]
-        addr, args, need = rand_message(rng, tags, "V", st)
-        toks = [C01.tok("V", t, a) for t, a in zip(payload_tags(tags), args)]
-        r = rng.random()
-        if r < 0.5:
+        # type strings with bytes that are not tags (default branches): stores outside the block only
+        for _ in range(120 if quick else 4000):
+            tags = bytes(rng.choice(b"ifsbTx.Z0a") for _ in range(rng.randint(1, 6)))
+            if all(bytes([t]) in C01.TAGS for t in tags):
+                tags += b"x"
+            mode = rng.choice("AV")
+            addr = C01.rand_addr(rng)
+            args = [C01.rand_arg(rng, t, mode, st) for t in payload_tags(tags)]
+            stats["junk_tags"] += 1
+            yield " ".join(["J"] + m_line(mode, 0, 64, addr, tags, args).split()[1:])
+        # bundles
+        for _ in range(2000 if quick else 50000):
+            if rng.random() < 0.15:
+                kids = [("m", C08.rand_msg(rng, small=True)) if rng.random() < 0.85 else C08.rand_tree(rng, 0, 2, small=True)
+                        for _ in range(rng.randint(9, 32))]
+                t = C08.set_caps(rng, ["B", C08.rand_tt(rng), None, kids], lambda s: s)
+            else:
+                t = C08.set_caps(rng, C08.rand_tree(rng, rng.randint(0, 4), rng.choice([1, 2, 3, 4, 8]), small=True), lambda s: s)
+            need = len(C08.enc(t))
+            stats["bundle_depth_hist"][min(C08.depth_of(t) - 1, 4)] += 1
+            stats["bundle_elems_hist"][min(len(t[3]) // 8, 5)] += 1
+            for lo, hi in windows(need):
+                stats["bundle_sweeps"] += 1
+                stats["capacities"] += hi - lo + 1
+                yield " ".join(["B", str(lo), str(hi)] + C08.tokens(t))
+        # ThreadLink::writeArray
+        for _ in range(500 if quick else 20000):
+            tags = C01.rand_tags(rng, 0, 6)
+            addr, args, need = rand_message(rng, tags, "A", st)
             maxmsg = max(1, need + rng.choice([-9, -4, -1, 0, 0, 1, 4, 8, 40]))
-            stats["tlink_write"] += 1
-            yield " ".join(["W%d" % k, str(maxmsg), hx(addr)] + toks)
-        else:
+            stats["tlink_writeArray"] += 1
+            yield " ".join(["T", str(maxmsg), hx(addr), hx(tags)] + [C01.tok("A", t, a) for t, a in zip(payload_tags(tags), args)])
+        # ThreadLink::write and RtData::reply / broadcast through literal call sites
+        for _ in range(600 if quick else 20000):
+            k = rng.randrange(len(TEMPLATES))
+            tags = TEMPLATES[k]
+            addr, args, need = rand_message(rng, tags, "V", st)
+            toks = [C01.tok("V", t, a) for t, a in zip(payload_tags(tags), args)]
+            r = rng.random()
+            if r < 0.5:
+                maxmsg = max(1, need + rng.choice([-9, -4, -1, 0, 0, 1, 4, 8, 40]))
+                stats["tlink_write"] += 1
+                yield " ".join(["W%d" % k, str(maxmsg), hx(addr)] + toks)
+            else:
+                stats["rtdata"] += 1
+                c = rng.choice("RQ")
+                n, cap = caps["reply" if c == "R" else "broadcast"]
+                yield " ".join(["%s%d" % (c, k), str(n), str(cap), hx(addr)] + toks)
+        # RtData::reply / broadcast around the size of the stack buffer / the capacity passed
+        for j in range(24 if quick else 200):
+            c = "RQ"[j % 2]
+            n, cap = caps["reply" if c == "R" else "broadcast"]
+            addr = C01.rand_addr(rng, rng.randint(1, 8))
+            head = len(C01.pad_str(addr)) + 4
+            around = cap if (j // 2) % 3 else n
+            ln = around - head - rng.choice([0, 1, 2, 3, 4, 5, 8]) + rng.choice([-4, 0, 0, 1, 4, 9])
+            s_ = C01.rand_nonnul(rng, max(ln, 0))
+            need = len(C01.encode(addr, b"s", [s_]))
             stats["rtdata"] += 1
-            yield " ".join(["%s%d" % (rng.choice("RQ"), k), hx(addr)] + toks)
-    # RtData::reply / broadcast around the 8192-byte stack buffer
-    for j in range(24 if quick else 200):
-        addr = C01.rand_addr(rng, rng.randint(1, 8))
-        head = len(C01.pad_str(addr)) + 4
-        n = 8192 - head - rng.choice([0, 1, 2, 3, 4, 5, 8]) + rng.choice([-4, 0, 0, 1, 4, 9])
-        s = C01.rand_nonnul(rng, max(n, 0))
-        need = len(C01.encode(addr, b"s", [s]))
-        stats["rtdata"] += 1
-        stats["rtdata_over_8192"] += need > 8192
-        yield " ".join(["%s1" % "RQ"[j % 2], hx(addr), "s" + hx(s)])
+            stats["rtdata_over_cap"] += need > cap
+            yield " ".join(["%s1" % c, str(n), str(cap), hx(addr), "s" + hx(s_)])
+
+    rest = list(body())
+    # spread the expensive lines evenly over the op list
+    step_ = max(len(rest) // (len(huge) + 1), 1)
+    pos = 0
+    for i, grp in enumerate(huge):
+        yield from rest[pos:pos + step_]
+        pos += step_
+        yield from grp
+    yield from rest[pos:]
 
 
 def nontrivial(op):
     w = op.split()
-    if w[0] == "M":
+    if w[0] in "MJ":
         return len(w) > 6
     if w[0] == "B":
         return any(x[0] == "m" for x in w[3:])
@@ -215,9 +357,13 @@ def check_sweep(out, lo, hi, need, spec, with_z):
         return "canary run differs or canary destroyed: g=" + f["g"]
     z = None
     if with_z:
+        if not f.get("z", "").isdigit() or not f.get("zh", "").isdigit():
+            return "unparsable output"
         z = int(f["z"])
         if need is not None and z != need:
             return "NULL buffer: returned %d, the encoding has %d bytes" % (z, need)
+        if int(f["zh"]) != z:
+            return "NULL buffer with len = %d: returned %s, with len = 0: %d" % (hi, f["zh"], z)
     caps = parse_caps(f["c"])
     if [c[0] for c in caps] != list(range(lo, hi + 1)):
         return "capacities missing in output"
@@ -251,13 +397,20 @@ def tlink_expected(maxmsg, spec):
 
 def oracle(op, out):
     w = op.split()
+    if w[0] == "J":
+        # outside the property's input space: only a store outside the block counts
+        if out.startswith("crash:asan") or out.startswith("crash:signal:11"):
+            return "construction with an unknown type character stored or read outside a block: " + out
+        if "unsafe" in out or (out.startswith("g=") and not out.startswith("g=ok")):
+            return "construction with an unknown type character: " + out[:120]
+        return None
     if w[0] == "M":
         mode, lo, hi, addr, tags = w[1], int(w[2]), int(w[3]), unhx(w[4]), unhx(w[5])
         args = parse_args(tags, w[6:])
         if C01.wellformed(addr, tags, args):
             spec = C01.encode(addr, tags, args)
             return check_sweep(out, lo, hi, len(spec), spec, True)
-        return check_sweep(out, lo, hi, None, None, True)
+        return None
     if w[0] == "B":
         lo, hi = int(w[1]), int(w[2])
         t, _ = C08.parse_tokens(w, 3)
@@ -282,12 +435,13 @@ def oracle(op, out):
         args = parse_args(tags, w[3:])
         exp = tlink_expected(maxmsg, C01.encode(addr, tags, args))
         return None if out == exp else "ThreadLink::write: expected %s, got %s" % (exp[:120], out[:120])
-    addr = unhx(w[1])
-    args = parse_args(tags, w[2:])
+    n, cap, addr = int(w[1]), int(w[2]), unhx(w[3])
+    args = parse_args(tags, w[4:])
     spec = C01.encode(addr, tags, args)
     name = "reply" if w[0][0] == "R" else "broadcast"
-    exp = "%s=%d:%s" % (name, len(spec), hx(spec)) if len(spec) <= 8192 else "%s=0:-" % name
-    return None if out == exp else "RtData::%s: expected %s, got %s" % (name, exp[:120], out[:120])
+    # cap = the capacity the wrapper passes for its own buffer (read from the source of the tree under test)
+    exp = "%s=%d:%s" % (name, len(spec), hx(spec)) if len(spec) <= cap else "%s=0:-" % name
+    return None if out == exp else "RtData::%s (buffer %d, capacity %d): expected %s, got %s" % (name, n, cap, exp[:120], out[:120])
 
 
 def neighbours(op, rng):
@@ -303,6 +457,6 @@ def neighbours(op, rng):
         st = new_stats()
         tags = unhx(w[5])
         for _ in range(100):
-            mode = rng.choice("AV")
+            mode = rng.choice("AVL" if tags in TEMPLATES else "AV")
             addr, args, need = rand_message(rng, tags, mode, st)
             yield m_line(mode, 0, need + 8, addr, tags, args)
